@@ -385,6 +385,33 @@ func mdataWideHistory(rec *trace.Recorder, dir string, rng *rand.Rand, h int, su
 
 func mdataCompactHistoryGen(rec *trace.Recorder, dir string, rng *rand.Rand, h int, sum *trace.Summary, mode, family string,
 	metrics []uint32, extra trace.F, gen func(metric uint32) *mblock) {
+	mdataCompactHistoryPlan(rec, dir, rng, h, sum, mode, family, metrics, extra, gen, nil)
+}
+
+// gap histories: the key ranges of the files matter.  A first compaction leaves a file one level up that holds the
+// metrics in the MIDDLE of the key space; the next compaction merges level-0 files whose key ranges lie entirely below
+// and entirely above it, so that its output -- one level up as well -- spans the untouched file without sharing a key
+// with it; later rounds write everything again.  Every metric must read the same before and after each compaction.
+func mdataGapHistory(rec *trace.Recorder, dir string, rng *rand.Rand, h int, sum *trace.Summary) {
+	low := []uint32{1, 5 + uint32(rng.Intn(3))}
+	mid := []uint32{100, 150, 200 + uint32(rng.Intn(5))}
+	high := []uint32{1000, 1001 + uint32(rng.Intn(4))}
+	all := append(append(append([]uint32{}, low...), mid...), high...)
+	plan := [][][]uint32{
+		{mid, mid},
+		{low, high},
+		{low, high, low},
+		{all, mid},
+	}
+	if h%2 == 1 {
+		plan = [][][]uint32{{mid, mid[:2]}, {high, low}, {all, all}, {low, high}}
+	}
+	mdataCompactHistoryPlan(rec, dir, rng, h, sum, "compact-gap", "20", all, trace.F{"gap": true},
+		func(m uint32) *mblock { return genBlock(rng, m, 12) }, plan)
+}
+
+func mdataCompactHistoryPlan(rec *trace.Recorder, dir string, rng *rand.Rand, h int, sum *trace.Summary, mode, family string,
+	metrics []uint32, extra trace.F, gen func(metric uint32) *mblock, plan [][][]uint32) {
 	store, err := kv.GetStoreManager().CreateStore(dir, kv.DefaultStoreOption())
 	if err != nil {
 		sum.Unresolved = append(sum.Unresolved, err.Error())
@@ -392,7 +419,7 @@ func mdataCompactHistoryGen(rec *trace.Recorder, dir string, rng *rand.Rand, h i
 	}
 	defer func() { _ = kv.GetStoreManager().CloseStore(dir) }()
 	opt := kv.FamilyOption{Merger: string(metricsdata.MetricDataMerger)}
-	small := rng.Intn(2) == 0
+	small := rng.Intn(2) == 0 && plan == nil
 	if small {
 		opt.MaxFileSize = uint32(64 + rng.Intn(400)) // output split over several files
 	}
@@ -407,8 +434,40 @@ func mdataCompactHistoryGen(rec *trace.Recorder, dir string, rng *rand.Rand, h i
 	}
 	rec.Reset(reset)
 	rounds := 1 + rng.Intn(3)
+	if plan != nil {
+		rounds = len(plan)
+	}
+	// a read of the whole family; with a plan (key ranges matter: the files a lookup visits come out of a map) the family
+	// is read several times and the read with the fewest cells is the one that is judged
+	read := func() (map[uint32][][]mcell, error) {
+		best, err := familyBlocks(f, metrics)
+		if err != nil || plan == nil {
+			return best, err
+		}
+		count := func(x map[uint32][][]mcell) (n int) {
+			for _, bl := range x {
+				for _, b := range bl {
+					n += len(b)
+				}
+			}
+			return n
+		}
+		for i := 0; i < 7; i++ {
+			again, err := familyBlocks(f, metrics)
+			if err != nil {
+				return nil, err
+			}
+			if count(again) < count(best) {
+				best = again
+			}
+		}
+		return best, nil
+	}
 	for r := 0; r < rounds; r++ {
 		nfiles := 2 + rng.Intn(3)
+		if plan != nil {
+			nfiles = len(plan[r])
+		}
 		for i := 0; i < nfiles; i++ {
 			kf := f.NewFlusher()
 			mf, err := metricsdata.NewFlusher(kf)
@@ -417,8 +476,12 @@ func mdataCompactHistoryGen(rec *trace.Recorder, dir string, rng *rand.Rand, h i
 				return
 			}
 			written := []any{}
-			for _, m := range metrics {
-				if rng.Intn(4) == 0 {
+			fileMetrics := metrics
+			if plan != nil {
+				fileMetrics = plan[r][i]
+			}
+			for _, m := range fileMetrics {
+				if plan == nil && rng.Intn(4) == 0 {
 					continue
 				}
 				b := gen(m)
@@ -434,7 +497,7 @@ func mdataCompactHistoryGen(rec *trace.Recorder, dir string, rng *rand.Rand, h i
 			kf.Release()
 			rec.Emit("Flush", trace.F{"blocks": written})
 		}
-		before, err := familyBlocks(f, metrics)
+		before, err := read()
 		if err != nil {
 			rec.Emit("Error", trace.F{"op": "read before", "err": err.Error()})
 			return
@@ -446,7 +509,7 @@ func mdataCompactHistoryGen(rec *trace.Recorder, dir string, rng *rand.Rand, h i
 		rec.Emit("Before", trace.F{"blocks": bj, "files": familyFiles(f, 2)})
 		f.Compact()
 		kv.VerifWaitFamily(f)
-		after, err := familyBlocks(f, metrics)
+		after, err := read()
 		if err != nil {
 			rec.Emit("Error", trace.F{"op": "read after", "err": err.Error()})
 			return
@@ -467,6 +530,7 @@ func mdataMain(args []string) int {
 	out := fs.String("out", "mdata.ndjson", "trace output")
 	seed := fs.Int64("seed", 1, "seed")
 	nh := fs.Int("compact", 40, "compaction histories")
+	ngap := fs.Int("gap", 0, "compaction histories whose output one level up spans an untouched file of that level (key ranges below and above it)")
 	nw := fs.Int("wide", 0, "compaction histories with wide slot ranges (above 360 slots)")
 	nr := fs.Int("rollup", 0, "rollup histories")
 	nimg := fs.Int("images", 0, "rollup histories restarted from the image after every manifest commit of the rollup job")
@@ -499,6 +563,13 @@ func mdataMain(args []string) int {
 	for h := 0; h < *nh; h++ {
 		d := filepath.Join(*scratch, fmt.Sprintf("m%d", h))
 		mdataCompactHistory(rec, d, rand.New(rand.NewSource(rng.Int63())), h, sum)
+		_ = rec.Flush()
+		os.RemoveAll(d)
+	}
+	gaprng := rand.New(rand.NewSource(*seed*31337 + 5))
+	for h := 0; h < *ngap; h++ {
+		d := filepath.Join(*scratch, fmt.Sprintf("g%d", h))
+		mdataGapHistory(rec, d, rand.New(rand.NewSource(gaprng.Int63())), h, sum)
 		_ = rec.Flush()
 		os.RemoveAll(d)
 	}
